@@ -11,7 +11,7 @@ from ..ctx import Raised
 PROP = 'C13'
 C_TOL = 100.0
 RULE = ('cases = q = x/y, scalar/y and elementwise_divide(x,y,eps,...) for TT tensors of order 2..5, mode sizes 1..10 (dense size <= 2e4), ranks 1..4, divisors y = 1 + z*z with '
-        'every entry certified in [1,2] on the dense array, optional preconditioner c, optional starting tensor, eps log-uniform in [1e-10,1e-3] for elementwise_divide, '
+        'every entry certified in [1,2] (a few larger cases: [1,7.25]) on the dense array, optional preconditioner c, optional starting tensor, eps log-uniform in [1e-10,1e-3] for elementwise_divide, '
         'k internal seeds per structure; plus x/scalar (power-of-two scalars, int-valued cores: bit-exact). Oracle: shape; ||D(q)*D(y) - D(x)|| <= 100*tol*||D(x)|| with tol = 1e-12 '
         '(operators, fixed setting) or eps (elementwise_divide). distinct = (form, structure, eps decade, options, seed index); non-trivial = non-zero numerator.')
 ASSUMPTIONS = ['"within the solver tolerance" is fixed a priori as 100*tol (the AMEn residual is controlled per local problem; the constant absorbs sqrt(d) and the damping factor)',
@@ -42,6 +42,10 @@ def cases(tier, seed):
             c = dict(base)
             c['sidx'] = j
             cs.append(c)
+    # larger divisions: interior local systems above max_full (iterative branch) that do not converge in one Krylov cycle
+    for i in range(3 if not T else 12):
+        cs.append({'gen': 'div', 'form': ['x/y', 'elementwise_divide', 's/y'][i % 3], 'N': [8, 8, 8, 8] if i % 2 == 0 else [9, 8, 10], 'Rx': [1, 2, 2, 2, 1] if i % 2 == 0 else [1, 2, 2, 1],
+                   'Rz': [1, 2, 2, 2, 1] if i % 2 == 0 else [1, 2, 2, 1], 'eps': 1e-10, 'prec': 'c' if i % 3 == 1 else None, 'start': False, 'scalar': 2.0, 'vseed': 4242 + i, 'sidx': 0, 'zrange': 2.5})
     # degenerate but legitimate inputs: zero numerator (0/y, 0.0/y, zeros/y) and an all-zero starting tensor
     for i in range(12 if not T else 120):
         d = rng.choice([2, 3, 4])
@@ -95,10 +99,11 @@ def run_div(case, ctx, g):
     x = gens.make_tt(N, case['Rx'], dt, 'zero' if case.get('zero_num') else 'gauss', g)
     z = gens.make_tt(N, case['Rz'], dt, 'gauss', g)
     zmax = float(dn.D(z).abs().max())
-    z = ctx.call('TT*scalar', lambda a: a * (1.0 / max(zmax, 1e-300)), z)
+    zr = float(case.get('zrange', 1.0))      # |z| <= zrange: divisor entries in [1, 1 + zrange^2]
+    z = ctx.call('TT*scalar', lambda a: a * (zr / max(zmax, 1e-300)), z)
     y = ctx.call('TT*TT+1', lambda a: a * a + 1.0, z)
     dy = dn.D(y)
-    if not (float(dy.min()) >= 1.0 - 1e-9 and float(dy.max()) <= 2.0 + 1e-9):
+    if not (float(dy.min()) >= 1.0 - 1e-9 and float(dy.max()) <= 1.0 + zr * zr + 1e-9):
         ctx.count('rejected:divisor-not-in-[1,2]')
         return
     ctx.count('form:' + form)
